@@ -3,12 +3,14 @@ package c09
 import (
 	"bytes"
 	"fmt"
+	"os"
 	"reflect"
 	"runtime"
 	"sync"
 	"sync/atomic"
 	"testing"
 
+	"github.com/google/certificate-transparency-go/tls"
 	"pgregory.net/rapid"
 
 	"verif/internal/harness"
@@ -61,7 +63,23 @@ type concResult struct {
 	dst reflect.Value
 }
 
+// checkConc runs the experiment on two fresh types per case (the outcome depends on the schedule); a replay
+// repeats it 300 times so that a saved case has a fair chance to show the failure again.
 func checkConc(t *testing.T, c ConcCase) (v harness.Verdict) {
+	rounds := 2
+	if os.Getenv("VERIF_REPLAY") != "" {
+		rounds = 300
+	}
+	for r := 0; r < rounds; r++ {
+		v = concRound(c)
+		if v.Discard || len(v.Violations) > 0 {
+			break
+		}
+	}
+	return v
+}
+
+func concRound(c ConcCase) (v harness.Verdict) {
 	nf := len(c.Type.Fields)
 	if c.Type.K != KStruct || nf == 0 || c.Type.Fields[nf-1].D.K != KBytes || c.Type.Fields[nf-1].Arm ||
 		c.Type.validate(ctxTop, 0) != nil || len(c.Workers) == 0 || len(c.Workers) > 64 {
@@ -76,6 +94,7 @@ func checkConc(t *testing.T, c ConcCase) (v harness.Verdict) {
 	n := len(c.Workers)
 	args := make([]any, n)
 	ins := make([][]byte, n)
+	bufs := make([][]byte, n)
 	vals := make([]Val, n)
 	res := make([]concResult, n)
 	for i := range c.Workers {
@@ -89,34 +108,36 @@ func checkConc(t *testing.T, c ConcCase) (v harness.Verdict) {
 			args[i] = toReflect(&d, &vals[i], typ).Interface()
 		} else {
 			ins[i] = w.Input
+			bufs[i] = append([]byte{}, w.Input...)
 			res[i].dst = reflect.New(typ)
 			args[i] = res[i].dst.Interface()
 		}
 	}
-	var start atomic.Int32
-	var ready, done sync.WaitGroup
-	ready.Add(n)
+	// barrier among the workers themselves: the last one to arrive releases all (no hand-over through the
+	// scheduler between "everybody is ready" and "go")
+	var arrived atomic.Int32
+	var done sync.WaitGroup
 	done.Add(n)
 	for i := 0; i < n; i++ {
 		go func(i int) {
 			defer done.Done()
-			ready.Done()
-			for spins := 0; start.Load() == 0; spins++ {
-				if spins > 1<<16 {
-					runtime.Gosched()
+			arrived.Add(1)
+			for spins := 0; arrived.Load() < int32(n); spins++ {
+				if spins > 2000 {
+					runtime.Gosched() // fewer processors than workers: let the others start
+					spins = 0
 				}
 			}
+			// straight into the package: no allocation measurement here (ReadMemStats stops the world and would
+			// stagger the goroutines)
+			r := &res[i]
 			if c.Workers[i].Kind == "value" {
-				r := callMarshal(args[i], "", i%4 == 0)
-				res[i].out, res[i].err, res[i].pan = r.out, r.err, r.pan
+				r.pan = guarded(func() { r.out, r.err = tls.Marshal(args[i]) })
 			} else {
-				r := callUnmarshal(append([]byte{}, ins[i]...), args[i], "", i%4 == 1)
-				res[i].out, res[i].err, res[i].pan = r.out, r.err, r.pan
+				r.pan = guarded(func() { r.out, r.err = tls.Unmarshal(bufs[i], args[i]) })
 			}
 		}(i)
 	}
-	ready.Wait()
-	start.Store(1)
 	done.Wait()
 
 	where := func(i int) string {
@@ -183,7 +204,7 @@ func checkConc(t *testing.T, c ConcCase) (v harness.Verdict) {
 }
 
 var Concurrent = harness.Define(harness.Opts{
-	Name: "concurrent",
-	Rule: "a generated top-level struct (the usual shapes, plus 0-6 extra scalar fields) made NEW to the process by one more field `[]byte minlen:0,maxlen:<process-wide counter>`; 4-8 goroutines are released on it at the same instant, the even ones marshalling a value each, the odd ones unmarshalling an input each (valid encodings, mutated encodings, raw bytes); every call is judged against the reference codec (bytes, accept/reject, value, rest, no panic) and each Marshal is repeated alone afterwards and must give the same answer. The race detector is NOT on (see level_note). Every case is non-trivial",
+	Name:  "concurrent",
+	Rule:  "a generated top-level struct (the usual shapes, plus 0-6 extra scalar fields) made NEW to the process by one more field `[]byte minlen:0,maxlen:<process-wide counter>`; 4-8 goroutines are released on it at the same instant, the even ones marshalling a value each, the odd ones unmarshalling an input each (valid encodings, mutated encodings, raw bytes); every call is judged against the reference codec (bytes, accept/reject, value, rest, no panic) and each Marshal is repeated alone afterwards and must give the same answer. The race detector is NOT on (see level_note). Every case is non-trivial",
 	Quick: 2500, Thorough: 4000, MaxSample: 900,
 }, genConc, checkConc)
